@@ -7,11 +7,13 @@ extern "C" {
 // rth <hex> queries: m | p<i> | e<tbits>
 SB_OP(rth)
 {
-    auto v = unhex(t[2]);
+    bool empty = t[2] == "-";
+    auto v = empty ? std::vector<uint8_t>() : unhex(t[2]);
     ExactBuf view(v);
     sb_rth_plan_t plan;
-    memset(&plan, 0, sizeof(plan));
-    sb_error_t rc = sb_rth_plan_init_from_buffer(&plan, view.p, view.n);
+    // an init function must not depend on what the object held before: the empty plan is made on dirty memory
+    memset(&plan, empty ? 0xA5 : 0, sizeof(plan));
+    sb_error_t rc = empty ? sb_rth_plan_init_empty(&plan) : sb_rth_plan_init_from_buffer(&plan, view.p, view.n);
     add(out, (long long)rc);
     if (rc != SB_SUCCESS)
         return;
